@@ -60,9 +60,10 @@ func CopyFileHash(dstFs, srcFs VFSBase, dstPath, srcPath string, hasher hash.Has
 	}
 
 	defer func() {
+		// an error of Close is reported if nothing else failed before.
 		cerr := dst.Close()
-		if cerr == nil {
-			err = cerr
+		if err == nil && cerr != nil {
+			sum, err = nil, cerr
 		}
 	}()
 
